@@ -45,6 +45,8 @@ type Contract struct {
 	// Cases: named sub-cases for known-finding delimitation: ensures labelled
 	Labels map[*Clause]string
 	Lets   map[string]Expr
+	CallReqs []*CallReq // extra conditions at call sites inside this function
+	SendReqs []*Clause  // conditions on every value this function sends on a channel ("sent" names the value)
 	Oracle bool     // executable transcription of the property used for counterexample search; not verified
 	Covers []string // function-key substrings whose failed obligations this oracle can witness
 }
@@ -52,7 +54,7 @@ type Contract struct {
 var clauseKeywords = map[string]bool{
 	"func": true, "mode": true, "props": true, "trusted": true, "requires": true, "ensures": true,
 	"assigns": true, "nopanic": true, "pure": true, "loop": true, "invariant": true, "decreases": true,
-	"note": true, "funcfield": true, "iface": true, "global": true, "let": true, "oracle": true, "covers": true, "def": true,
+	"note": true, "funcfield": true, "iface": true, "global": true, "let": true, "oracle": true, "covers": true, "def": true, "callreq": true, "sendreq": true,
 }
 
 // parseContractFile reads //@ lines. pkgPath is the import path of the
@@ -68,6 +70,14 @@ func parseContractFile(path, pkgPath string) ([]*Contract, error) {
 
 func parseContractText(text, path, pkgPath string) ([]*Contract, error) {
 	return parseContractLines(bufio.NewScanner(strings.NewReader(text)), path, pkgPath)
+}
+
+// CallReq: "callreq <callee substring> : <expr>" -- an obligation at every
+// call in this function whose callee name contains the substring, evaluated
+// in the caller's state just before the call.
+type CallReq struct {
+	Callee string
+	C      *Clause
 }
 
 // Def is a file-level parameterised abbreviation: //@ def name(a, b) = expr
@@ -172,6 +182,22 @@ func parseContractLines(sc *bufio.Scanner, path, pkgPath string) ([]*Contract, e
 			cur.HasAssigns = true
 		case "nopanic":
 			cur.NoPanic = true
+		case "callreq":
+			i := strings.Index(rc.text, " : ")
+			if i < 0 {
+				return nil, fmt.Errorf("%s:%d: callreq needs '<callee> : <expr>'", path, rc.line)
+			}
+			c, err := mk("callreq", rawClause{"callreq", rc.text[i+3:], rc.line})
+			if err != nil {
+				return nil, err
+			}
+			cur.CallReqs = append(cur.CallReqs, &CallReq{Callee: strings.TrimSpace(rc.text[:i]), C: c})
+		case "sendreq":
+			c, err := mk("sendreq", rc)
+			if err != nil {
+				return nil, err
+			}
+			cur.SendReqs = append(cur.SendReqs, c)
 		case "oracle":
 			cur.Oracle = true
 		case "covers":
